@@ -129,6 +129,88 @@ theorem findDepending_window (isa : Isa) (fd : Bool) (p p' : Ins) (rest more : L
     simp [memStops_own isa p' m hdm']
   | .other, _, _ => rfl
 
+theorem regDep_dead_or_refl (isa : Isa) (r : Reg) : regDep isa r r = true ∨ ∀ s, regDep isa r s = false := by
+  cases isa with
+  | x86 => exact Or.inl (regDep_x86_refl r)
+  | a64 =>
+    by_cases h : regDep .a64 r r = true
+    · exact Or.inl h
+    · right
+      intro s
+      simp only [regDep, RegDep.a64, Bool.and_eq_true, not_and, Bool.not_eq_true] at h ⊢
+      have hn : (if Gen.a64NameFold = true then lower r.name == lower r.name else r.name == r.name) = true := by
+        split <;> simp
+      have hc := h hn
+      rw [Bool.and_eq_false_iff]
+      right
+      rw [List.any_eq_false] at hc ⊢
+      intro cls hcls
+      have := hc cls hcls
+      simp only [Bool.and_self] at this
+      simp [this]
+
+theorem depReg_dead (isa : Isa) (r : Reg) (h : ∀ s, regDep isa r s = false) (o : Option Reg) :
+    depReg isa (.reg r) o = false := by
+  cases o <;> simp [depReg, h]
+
+theorem isRead_dead (isa : Isa) (r : Reg) (h : ∀ s, regDep isa r s = false) (i : Ins) :
+    isRead isa (.reg r) i = false := by
+  unfold isRead
+  rw [Bool.or_eq_false_iff]
+  constructor
+  · rw [List.any_eq_false]
+    intro o _
+    cases o with
+    | reg s => simp [depOp, h]
+    | flag n => simp [depOp]
+    | mem m => simp [depReg_dead isa r h]
+    | other => simp [depOp]
+  · rw [List.any_eq_false]
+    intro o _
+    cases o with
+    | mem m => simp [depReg_dead isa r h]
+    | _ => simp
+
+theorem scanTarget_dead (isa : Isa) (r : Reg) (h : ∀ s, regDep isa r s = false) (tag : Tag) (l : List Ins) :
+    scanTarget isa (.reg r) tag l = [] := by
+  induction l with
+  | nil => rfl
+  | cons i l ih => simp [scanTarget, isRead_dead isa r h i, ih]
+
+/-- **window, unconditional**: in the model as written a register either depends on itself or on no
+    register at all (x86: always reflexive; AArch64: a prefix outside every prefix class makes the
+    register invisible to all dependence tests) — so the producer's next occurrence ends every scan
+    that can emit anything, for every ISA and every producer. -/
+theorem findDepending_window_all (isa : Isa) (fd : Bool) (p p' : Ins) (rest more : List Ins)
+    (hd : p'.dst = p.dst) (hsd : p'.srcDst = p.srcDst) :
+    findDepending isa fd p (rest ++ p' :: more) = findDepending isa fd p (rest ++ [p']) := by
+  unfold findDepending
+  apply flatMap_congr'
+  intro d hdm
+  have e : rest ++ p' :: more = (rest ++ [p']) ++ more := by simp
+  have hdm' : d ∈ p'.dst ++ p'.srcDst := by rw [hd, hsd]; exact hdm
+  match d, hdm, hdm' with
+  | .reg r, hdm, hdm' =>
+    dsimp only
+    rcases regDep_dead_or_refl isa r with hrefl | hdead
+    · rw [e, scanTarget_window]
+      rw [List.any_append, Bool.or_eq_true]; right
+      simp [isWritten_own_reg isa p' r hdm' hrefl]
+    · rw [scanTarget_dead isa r hdead, scanTarget_dead isa r hdead]
+  | .flag n, _, hdm' =>
+    by_cases hf : fd = true
+    · simp only [hf, if_true]
+      rw [e, scanTarget_window]
+      rw [List.any_append, Bool.or_eq_true]; right
+      simp [isWritten_own_flag isa p' n hdm']
+    · simp [hf]
+  | .mem m, _, hdm' =>
+    dsimp only
+    rw [e, scanMem_window]
+    rw [List.any_append, Bool.or_eq_true]; right
+    simp [memStops_own isa p' m hdm']
+  | .other, _, _ => rfl
+
 /-! ### the emissions that name one consumer -/
 
 theorem scanTarget_filter_none (isa : Isa) (t : Target) (tag : Tag) (rest : List Ins) (l : Nat)
